@@ -6,7 +6,7 @@
      - Gen/SGTables*.v, Gen/LookupSpec.v : the tables and GetSpaceGroup             (regenerated from spacegroups*.py),
      - Model/C11_LookupDefs.v (FindSpaceGroup), Model/C02_Orbit.v (exact orbit on the grid Z/D).
    Numbers are of an abstract type T (theorems over all T, or over R where arithmetic laws are used). *)
-From Coq Require Import ZArith List Bool Ascii String Reals Permutation.
+From Coq Require Import ZArith List Bool QArith Ascii String Reals Permutation.
 From DS Require Import Base.ZMat Base.SGDefs Base.C09_GNum Model.GroupCheck Model.C02_Orbit.
 From DS Require Import Model.C09_Prims Gen.C09_AtomFormulas Model.C09_AtomADP Model.C11_LookupDefs Model.C11_Checks Gen.SGTables Gen.LookupSpec.
 From DS Require Import Proofs.C09_Machine.
